@@ -21,7 +21,7 @@ type smsObs struct {
 	EncErr    string // error text of Marshal, if any
 	Out       []byte // octets written by Marshal
 	EncPanic  string
-	ValidType bool // packet is a pointer to one of the eight structs
+	ValidType bool   // packet is a pointer to one of the eight structs
 	Term      string // Gallina observables of the decoded struct, taken BEFORE Marshal (which writes into SubmitFlags)
 }
 
@@ -258,8 +258,9 @@ func randUD(r *Rng) (udl byte, ud []byte) {
 }
 
 // smsBase builds a well-formed TPDU of the given kind as named segments.
-//   kinds: deliver, deliver-report, deliver-report-error, submit, submit-report,
-//          submit-report-error, status-report, command
+//
+//	kinds: deliver, deliver-report, deliver-report-error, submit, submit-report,
+//	       submit-report-error, status-report, command
 func smsBase(r *Rng, kind string) tpduSegs {
 	var t tpduSegs
 	add := func(n string, b ...byte) { t = append(t, seg{n, b}) }
